@@ -102,8 +102,9 @@ Theorem remove_sorted_list_v0_refuted :
 Proof. exact remove_v0_refuted. Qed.
 
 Example registry_nonvacuous :
-  run_model (A := N) [] [Add 5%Z false 1; Add 5%Z true 2; Add 5%Z false 3; Remove 4%Z; Add i32_min false 4; Add i32_min true 5]
-  = [Ok [(5, 1)]; Ok [(5, 1); (4, 2)]; Ok [(5, 3); (4, 2)]; Ok [(5, 3)]; Ok [(5, 3); (i32_min, 4)]; Panic]%Z.
+  run_model (A := N) [] [Registry.Add 5%Z false 1; Registry.Add 5%Z true 2; Registry.Add 5%Z false 3; Registry.Remove 4%Z;
+                        Registry.Add i32_min false 4; Registry.Add i32_min true 5]
+  = [Ok [(5%Z, 1)]; Ok [(5%Z, 1); (4%Z, 2)]; Ok [(5%Z, 3); (4%Z, 2)]; Ok [(5%Z, 3)]; Ok [(5%Z, 3); (i32_min, 4)]; Panic].
 Proof. vm_compute. reflexivity. Qed.
 
 (** ---- 3. the [!> ] line ---- *)
@@ -137,7 +138,9 @@ Example present_line_nonvacuous :
   = B "!> tmpl standard.html  md.html &> allow-ips 10.0.0.16 &>" ++ [13; 10] /\
   group_words None (nonempty_words [B "tmpl"; B "standard.html"; []; B "md.html"; B "&>"; B "allow-ips"; B "10.0.0.16"; B "&>"])
   = [(B "tmpl", [B "standard.html"; B "md.html"]); (B "allow-ips", [B "10.0.0.16"])].
-Proof. vm_compute. repeat split; reflexivity. Qed.
+Proof.
+  split; [split; [repeat constructor|reflexivity]|split; vm_compute; reflexivity].
+Qed.
 
 (** The parser as it was before the repair e1abeb3 ([data_start = pos + 2] after a CR) and the
     argument iterator before ba40b64 ([index == back_index]) are refuted. *)
@@ -245,5 +248,5 @@ Example run_order_nonvacuous :
               {| pe_kind := 3; pe_code := 1; pe_prio := 2; pe_key := []; pe_payload := PMark; pe_body := [] |} ] in
   scenario_model es [B "/a"] =
   [(Ok (200, B "B"), [EPrime 9 (B "/a"); EPrime 1 (B "/b"); EPrepareSingle (B "/c") (B "/c");
-                      EPresentInternal (B "y") []; EPackage 2; EPackage 1])]%Z.
+                      EPresentInternal (B "y") []; EPackage 2; EPackage 1])].
 Proof. vm_compute. reflexivity. Qed.
